@@ -44,6 +44,8 @@ func newEnv(kind string, withP bool) *env {
 	switch kind {
 	case "rlwe":
 		e.p = uni.RLWE(rlwe.ParametersLiteral{LogN: logN, Q: q, P: p, NTTFlag: true})
+	case "rlwe-coef": // ciphertexts kept in the coefficient domain: exercises the non-NTT branches and their buffers
+		e.p = uni.RLWE(rlwe.ParametersLiteral{LogN: logN, Q: q, P: p, NTTFlag: false})
 	case "bgv":
 		bp, err := bgv.NewParametersFromLiteral(bgv.ParametersLiteral{LogN: logN, Q: q, P: p, PlaintextModulus: 97})
 		if err != nil {
@@ -72,7 +74,10 @@ func newEnv(kind string, withP bool) *env {
 	e.sk = kg.GenSecretKeyNew()
 	e.sk2 = kg.GenSecretKeyNew()
 	e.pk = kg.GenPublicKeyNew(e.sk)
-	e.galEls = []uint64{e.p.GaloisElement(1), e.p.GaloisElement(3), e.p.GaloisElementOrderTwoOrthogonalSubgroup()}
+	e.galEls = []uint64{e.p.GaloisElement(1), e.p.GaloisElement(3), e.p.GaloisElement(2)}
+	if e.p.RingType() == ring.Standard {
+		e.galEls[2] = e.p.GaloisElementOrderTwoOrthogonalSubgroup()
+	}
 	e.evk = rlwe.NewMemEvaluationKeySet(kg.GenRelinearizationKeyNew(e.sk), kg.GenGaloisKeysNew(e.galEls, e.sk)...)
 	e.evk2 = rlwe.NewMemEvaluationKeySet(kg.GenRelinearizationKeyNew(e.sk2), kg.GenGaloisKeysNew(e.galEls, e.sk2)...)
 	return e
